@@ -694,7 +694,7 @@ mutual
         let inner ← conv c fuel cx .build false s te path
         return .tgtPtr te inner
       -- 8 Basic
-      if (match sBasic, tBasic with | some a, some b => a == b | _, _ => false) then
+      if (match sBasic, tBasic with | some a, some b => a.canon == b.canon | _, _ => false) then
         return (if t.isNamed || s.isNamed then .cast .ident else .ident)
       -- 9 Struct
       if (isStruct env s).isSome && (isStruct env t).isSome then
